@@ -699,14 +699,16 @@ Fixpoint listN_eqb (x y : list N) : bool :=
 Record Block := mkBlock {
   b_txs : list Att;
   b_msg_ids : list N;        (* stands for message_outbox_root / message_receipt_count *)
-  b_inbox_root : list N
+  b_inbox_root : list N;
+  b_root_ok : bool           (* the header's transaction root / count belong to [b_txs] *)
 }.
 
 Definition check_block_matches (new : list Tx) (blk : Block) (d : Data) : option N :=
   match txs_match new (map a_tx (b_txs blk)) with
   | Some e => Some e
   | None =>
-      if (length new =? length (b_txs blk))%nat && listN_eqb (message_ids d) (b_msg_ids blk) &&
+      if (length new =? length (b_txs blk))%nat && b_root_ok blk &&
+         listN_eqb (message_ids d) (b_msg_ids blk) &&
          listN_eqb (inbox_root d) (b_inbox_root blk)
       then None else Some E_BlockMismatch
   end.
@@ -742,7 +744,7 @@ Definition vatt (a : Att) : Att :=
 (* the block a successful production describes, given the oracle answers [vatts] that the
    validating run will see for the included transactions *)
 Definition block_of (s : Run) (vatts : list Att) : Block :=
-  mkBlock vatts (message_ids (r_d s)) (inbox_root (r_d s)).
+  mkBlock vatts (message_ids (r_d s)) (inbox_root (r_d s)) true.
 
 (* ------------------------------------------------------------------ *)
 (* event replay and the decidable checkers (Pcheck)                     *)
@@ -1044,17 +1046,28 @@ Definition gParams (t : T) : option Params :=
 Record BlockIn := mkBlockIn {
   bi_hdr : Header; bi_comp : Components; bi_l1 : L1;
   bi_batches : list (list Att); bi_mint : Att; bi_vatts : list Att;
-  bi_tampered : list (list Att);
-  bi_dry : list (list Att);
+  bi_tampered : list (N * bool * list Att);   (* mutation kind, header still fits, transactions *)
+  bi_dry : list (bool * list Att);            (* forbid_fake_coins of the request, transactions *)
   bi_extra : T                    (* implementation-only oracle values, echoed *)
 }.
 
+Definition gTam (t : T) : option (N * bool * list Att) :=
+  match t with
+  | L [k; ok; atts] => match getN k, getB ok, gAtts atts with
+                       | Some k, Some ok, Some atts => Some (k, ok, atts) | _, _, _ => None end
+  | _ => None
+  end.
+Definition gDry (t : T) : option (bool * list Att) :=
+  match t with
+  | L [f; atts] => match getB f, gAtts atts with Some f, Some atts => Some (f, atts) | _, _ => None end
+  | _ => None
+  end.
 Definition gBlockIn (t : T) : option BlockIn :=
   match t with
   | L [L [h; da]; L [rc; gp]; l1; bs; ma; va; L tam; L dry; extra] =>
       match getN h, getN da, getN rc, getN gp, gL1 l1, gBatches bs with
       | Some h, Some da, Some rc, Some gp, Some l1, Some bs =>
-          match gAtt ma, gAtts va, mapM gAtts tam, mapM gAtts dry with
+          match gAtt ma, gAtts va, mapM gTam tam, mapM gDry dry with
           | Some ma, Some va, Some tam, Some dry =>
               Some (mkBlockIn (mkHeader h da) (mkComp rc gp) l1 bs ma va tam dry extra)
           | _, _, _, _ => None
@@ -1089,11 +1102,16 @@ Definition run_block (P : Params) (bi : BlockIn) (st : St) : T * St :=
         let '(v, ve) := validate_block P (bi_hdr bi) (bi_l1 bi) blk st in
         (tRunOut v ve, match ve with None => r_st (pr_run p) | Some _ => st end)
     end in
-  let tt := map (fun atts =>
+  let tt := map (fun x : N * bool * list Att =>
+                   let '(_, ok, atts) := x in
                    tErrOpt (snd (validate_block P (bi_hdr bi) (bi_l1 bi)
-                                                (mkBlock atts (b_msg_ids blk) (b_inbox_root blk)) st)))
+                                                (mkBlock atts (b_msg_ids blk) (b_inbox_root blk) ok) st)))
                 (bi_tampered bi) in
-  let td := map (fun txs => tDry (dry_run P (bi_hdr bi) (bi_comp bi) txs st)) (bi_dry bi) in
+  let td := map (fun x : bool * list Att =>
+                   let '(f, txs) := x in
+                   tDry (dry_run (mkParams (p_gas_limit P) (p_size_limit P) (p_max_tx_count P) f)
+                                 (bi_hdr bi) (bi_comp bi) txs st))
+                (bi_dry bi) in
   (L [tp; tv; L tt; L td; tSt st'], st').
 
 Fixpoint run_history (P : Params) (bis : list BlockIn) (st : St) : list T :=
@@ -1106,16 +1124,16 @@ Fixpoint run_history (P : Params) (bis : list BlockIn) (st : St) : list T :=
 (* decoded implementation result of one block *)
 Record RunObs := mkRunObs {
   o_err : N; o_ids : list N; o_skipped : list (N * N); o_status : list T; o_events : list Event;
-  o_data : T; o_inbox : list N
+  o_data : T; o_inbox : list N; o_events_t : list T
 }.
 Definition gPair (t : T) : option (N * N) :=
   match t with L [a; b] => get2 getN getN a b | _ => None end.
 Definition gRunObs (t : T) : option RunObs :=
   match t with
-  | L [e] => option_map (fun e => mkRunObs e [] [] [] [] (L []) []) (getN e)
+  | L [e] => option_map (fun e => mkRunObs e [] [] [] [] (L []) [] []) (getN e)
   | L [e; ids; L sk; L ss; L evs; d; ib] =>
       match getN e, getListN ids, mapM gPair sk, mapM gEvent evs, getListN ib with
-      | Some e, Some ids, Some sk, Some evs, Some ib => Some (mkRunObs e ids sk ss evs d ib)
+      | Some e, Some ids, Some sk, Some evs', Some ib => Some (mkRunObs e ids sk ss evs' d ib evs)
       | _, _, _, _, _ => None
       end
   | _ => None
@@ -1160,6 +1178,160 @@ Fixpoint pcheck02 (pre : St) (obs : list BlockObs) : bool :=
       end && pcheck02 (bo_post b) r
   end.
 
+(* ---- further checkers on the implementation's observation ---- *)
+Definition gStatus (t : T) : option Status :=
+  match t with
+  | L [id; f; h; g; fe] =>
+      match getN id, getB f, getB h, getN g, getN fe with
+      | Some id, Some f, Some h, Some g, Some fe => Some (mkStatus id f h g fe)
+      | _, _, _, _, _ => None
+      end
+  | _ => None
+  end.
+Definition statuses_of (o : RunObs) : list Status :=
+  match mapM gStatus (o_status o) with Some l => l | None => [] end.
+Definition sum_fee (l : list Status) : N := fold_right (fun s acc => s_fee s + acc) 0 l.
+Definition sum_gas (l : list Status) : N := fold_right (fun s acc => s_gas s + acc) 0 l.
+Definition data_nth (o : RunObs) (k : nat) : N :=
+  match o_data o with L l => match nth_error l k with Some t => match getN t with Some n => n | None => 0 end | None => 0 end | _ => 0 end.
+
+Definition committed (b : BlockObs) : option RunObs :=
+  match bo_val b with
+  | Some v => if (o_err (bo_prod b) =? 0) && (o_err v =? 0) then Some v else None
+  | None => None
+  end.
+Definition ids_of (atts : list Att) : list N := map (fun a => t_id (a_tx a)) atts.
+Definition same_set (a b : list N) : bool :=
+  forallb (fun x => mem x b) a && forallb (fun x => mem x a) b && (length a =? length b)%nat.
+Definition clean_obs (o : RunObs) : bool := forallb (fun x => negb (late (snd x))) (o_skipped o).
+
+Fixpoint forall2b {A B} (f : A -> B -> bool) (l : list A) (m : list B) : bool :=
+  match l, m with
+  | [], [] => true
+  | x :: l', y :: m' => f x y && forall2b f l' m'
+  | _, _ => false
+  end.
+
+(* C06: ids of a committed block are new and distinct, the processed table grows by exactly
+   them; tampered blocks carrying a repeated or already processed id are rejected *)
+Definition dup_or_seen (ids proc : list N) : bool :=
+  negb (nodupN ids) || existsb (fun x => mem x proc) ids.
+Fixpoint pcheck06 (pre : St) (l : list (BlockIn * BlockObs)) : bool :=
+  match l with
+  | [] => true
+  | (bi, b) :: r =>
+      match committed b with
+      | Some v =>
+          let ids := o_ids v in
+          nodupN ids && forallb (fun x => negb (mem x (processed pre))) ids &&
+          same_set (processed (bo_post b)) (ids ++ processed pre) &&
+          listN_eqb ids (o_ids (bo_prod b)) && listN_eqb ids (ids_of (bi_vatts bi))
+      | None => same_set (processed (bo_post b)) (processed pre)
+      end &&
+      forall2b (fun (x : N * bool * list Att) (err : N) =>
+                  if dup_or_seen (ids_of (snd x)) (processed pre) then negb (err =? 0) else true)
+               (bi_tampered bi) (bo_tam b) &&
+      pcheck06 (bo_post b) r
+  end.
+
+(* C03 *)
+Definition shape_ok (atts : list Att) : bool :=
+  match rev atts with
+  | m :: r => t_mint (a_tx m) && forallb (fun a => negb (t_mint (a_tx a))) r &&
+              (t_mint_index (a_tx m) =? N.of_nat (length r))
+  | [] => false
+  end.
+Definition block_size (atts : list Att) : N :=
+  fold_right (fun a acc => (if t_mint (a_tx a) then 0 else N.min (t_size (a_tx a)) u32max) + acc) 0 atts.
+Definition pc03_block (P : Params) (bi : BlockIn) (b : BlockObs) : bool :=
+  let prod := bo_prod b in
+  (if o_err prod =? 0 then
+     let atts := bi_vatts bi in
+     let ss := statuses_of prod in
+     shape_ok atts &&
+     match rev atts with
+     | m :: _ =>
+         (t_mint_price (a_tx m) =? c_gas_price (bi_comp bi)) &&
+         (t_mint_cid (a_tx m) =? c_recipient (bi_comp bi)) &&
+         (if clean_obs prod
+          then t_mint_amount (a_tx m) =? (if c_recipient (bi_comp bi) =? 0 then 0 else sum_fee ss)
+          else true)
+     | [] => false
+     end &&
+     (sum_gas ss <=? p_gas_limit P) && (N.of_nat (length atts) <=? u16max) &&
+     (block_size atts <=? size_limit32 P)
+   else true) &&
+  forall2b (fun (x : N * bool * list Att) (err : N) =>
+              let k := fst (fst x) in
+              if k =? 0 then match committed b with Some _ => err =? 0 | None => true end
+              else if existsb (N.eqb k) [1; 3; 4; 5; 8] then negb (err =? 0) else true)
+           (bi_tampered bi) (bo_tam b).
+Fixpoint pcheck03 (P : Params) (l : list (BlockIn * BlockObs)) : bool :=
+  match l with [] => true | (bi, b) :: r => pc03_block P bi b && pcheck03 P r end.
+
+(* C01: production and validation of the produced block report the same *)
+Fixpoint listT_eqb (a b : list T) : bool :=
+  match a, b with
+  | [], [] => true
+  | x :: a', y :: b' => T_eqb x y && listT_eqb a' b'
+  | _, _ => false
+  end.
+Definition extra_flag (bi : BlockIn) (k : nat) : bool :=
+  match bi_extra bi with L l => match nth_error l k with Some (I 1%Z) => true | _ => false end | _ => false end.
+Definition same_results (bi : BlockIn) (b : BlockObs) : bool :=
+  if o_err (bo_prod b) =? 0 then
+    match bo_val b with
+    | Some v =>
+        (o_err v =? 0) && listN_eqb (o_ids v) (o_ids (bo_prod b)) &&
+        listT_eqb (o_status v) (o_status (bo_prod b)) &&
+        listT_eqb (o_events_t v) (o_events_t (bo_prod b)) &&
+        T_eqb (o_data v) (o_data (bo_prod b)) && listN_eqb (o_inbox v) (o_inbox (bo_prod b)) &&
+        extra_flag bi 0
+    | None => false
+    end
+  else true.
+Fixpoint pcheck01 (l : list (BlockIn * BlockObs)) : bool :=
+  match l with [] => true | (bi, b) :: r => same_results bi b && pcheck01 r end.
+
+(* C04: skipped transactions leave nothing behind (production = validation, which never
+   sees them); reverted scripts consume their coin and non-retryable message inputs, keep
+   the retryable ones, emit no outbox message and pay their fee *)
+Definition att_reverted (a : Att) : bool :=
+  match a_vm a with Some o => v_reverted o | None => false end.
+Definition att_msg_ids (a : Att) : list N :=
+  match a_vm a with Some o => if v_reverted o then [] else v_msg_ids o | None => [] end.
+Definition consumes (a : Att) (n : N) : bool :=
+  existsb (fun i => match i with
+                    | InMsg n' _ _ _ _ rt => (n' =? n) && negb (rt && att_reverted a)
+                    | _ => false end) (t_inputs (a_tx a)).
+Definition pc04_block (bi : BlockIn) (b : BlockObs) : bool :=
+  same_results bi b &&
+  match committed b with
+  | Some v =>
+      let atts := filter (fun a => negb (t_mint (a_tx a))) (bi_vatts bi) in
+      let evs := o_events v in
+      forallb (fun a =>
+        forallb (fun i => match i with
+                          | InCoin k _ _ _ => existsb (utxo_eqb k) (consumed_keys evs)
+                          | InMsg n _ _ _ _ rt =>
+                              if rt && att_reverted a then true else mem n (consumed_msgs evs)
+                          | InContract _ => true end) (t_inputs (a_tx a))) atts &&
+      forallb (fun n => existsb (fun a => consumes a n) atts) (consumed_msgs evs) &&
+      (data_nth v 3 =? N.of_nat (length (flat_map att_msg_ids atts))) &&
+      (data_nth v 0 =? sum_fee (statuses_of v)) &&
+      forall2b (fun a s => Bool.eqb (att_reverted a) (s_failed s) && (t_id (a_tx a) =? s_id s))
+               (bi_vatts bi) (statuses_of v) &&
+      extra_flag bi 1
+  | None => true
+  end.
+Fixpoint pcheck04 (l : list (BlockIn * BlockObs)) : bool :=
+  match l with [] => true | (bi, b) :: r => pc04_block bi b && pcheck04 r end.
+
+(* C45: dry runs changed no column of any database and answered identically when repeated
+   (flags computed by the harness over ALL columns) *)
+Fixpoint pcheck45 (l : list (BlockIn * BlockObs)) : bool :=
+  match l with [] => true | (bi, b) :: r => extra_flag bi 2 && extra_flag bi 3 && pcheck45 r end.
+
 Definition main_hist (tag : Z) (observed : T) : T :=
   match observed with
   | L [L [params; genesis; L bis]; L res] =>
@@ -1171,8 +1343,13 @@ Definition main_hist (tag : Z) (observed : T) : T :=
             | Some obs =>
                 match tag with
                 | 2%Z => pcheck02 st obs
+                | 6%Z => pcheck06 st (combine bis' obs)
+                | 3%Z => pcheck03 P (combine bis' obs)
+                | 1%Z => pcheck01 (combine bis' obs)
+                | 4%Z => pcheck04 (combine bis' obs)
+                | 45%Z => pcheck45 (combine bis' obs)
                 | _ => false
-                end
+                end && (length bis' =? length obs)%nat
             | None => false
             end in
           L [model; tB pc]
